@@ -31,6 +31,29 @@ theorem reciprocity
   Sparrow.reciprocity scA scB hP hS hDA hDB hpairs hbin hfft hdirA hdirB hnodup hlt hbinsym κ area ρ
     hκ harea hform uA uB c₁ c₂ he0A he0B gA wA gB wB hrA hrB binRA binRB hbins K t ht
 
+/-- The same with the bin hypothesis required only where both point-to-patch factors are
+    non-zero — the form the whole run needs, because the code stores a zero source distance for
+    patches the source cannot see (their bins are then unrelated, and their terms vanish). -/
+theorem reciprocity_cond
+    (scA scB : ExScene ℝ)
+    (hP : scB.P = scA.P) (hS : scB.S = scA.S) (hDA : scA.D = 1) (hDB : scB.D = 1)
+    (hpairs : scB.pairs = scA.pairs) (hbin : scB.bin = scA.bin) (hfft : scB.fft = scA.fft)
+    (hdirA : ∀ i j, scA.dir i j = 0) (hdirB : ∀ i j, scB.dir i j = 0)
+    (hnodup : scA.pairs.Nodup) (hlt : ∀ p ∈ scA.pairs, p.1 < p.2 ∧ p.2 < scA.P)
+    (hbinsym : ∀ i j, scA.bin i j = scA.bin j i)
+    (κ : Nat → Nat → ℝ) (area ρ : Nat → ℝ) (hκ : ∀ i j, κ i j = κ j i) (harea : ∀ i, area i ≠ 0)
+    (hform : ∀ i j, scA.fft i j 0 = κ i j / area i * ρ j)
+    (uA uB : Nat → ℝ) (c₁ c₂ : ℝ)
+    (he0A : ∀ j, scA.e0 j 0 = c₁ * uA j * ρ j) (he0B : ∀ j, scB.e0 j 0 = c₁ * uB j * ρ j)
+    (gA wA gB wB : Nat → ℝ)
+    (hrA : ∀ j, gA j * wA j = c₂ * uA j / area j) (hrB : ∀ j, gB j * wB j = c₂ * uB j / area j)
+    (binRA binRB : Nat → Nat)
+    (hbins : ∀ i j, uA i ≠ 0 → uB j ≠ 0 → scA.bin0 i + binRB j = scB.bin0 j + binRA i)
+    (K t : Nat) (ht : t < scA.S) :
+    monoCurve scA K gB wB binRB t = monoCurve scB K gA wA binRA t :=
+  Sparrow.reciprocity_cond scA scB hP hS hDA hDB hpairs hbin hfft hdirA hdirB hnodup hlt hbinsym κ area ρ
+    hκ harea hform uA uB c₁ c₂ he0A he0B gA wA gB wB hrA hrB binRA binRB hbins K t ht
+
 /-- Reciprocity of the model of the code as it is (`np.roll` in the receiver kernel, D3): holds
     whenever the histogram is long enough that the receiver kernel wraps nothing — the setting
     the property quantifies over (rooms, positions, absorptions, attenuation, orders). -/
